@@ -27,9 +27,9 @@ META = {
         "and every setattr; C08.5 the validation pattern, parsed to its regex AST, rejects exactly the names containing a "
         "code point outside [A-Za-z0-9_.] (no flags, no `$` that tolerates a trailing newline), and the rejection raises "
         "TranslationError; C08.6 the server's loads call sits inside the catch-all parse guard that answers -32700 and "
-        "cannot reach the dispatch."),
+        "cannot reach the dispatch.; C08.7 (shared) the -32700 reply to a rejected payload can always be encoded (imported C02.6), and servers / proxies keep the caller's Config object itself, so switching use_jsonclass off on it afterwards is effective (imported C07.7)"),
     "does_not_decide": "that nothing is imported as an observed event; behaviour of __import__ on valid-looking names.",
-    "rules": {"C08.1": "who-may-call + dominance", "C08.2": "provenance of the config argument", "C08.3": "who-may-call on dynamic-code primitives",
+    "rules": {"C08.7": "imported C02.6, C07.7", "C08.1": "who-may-call + dominance", "C08.2": "provenance of the config argument", "C08.3": "who-may-call on dynamic-code primitives",
               "C08.4": "dominance in jsonclass.load", "C08.5": "regex AST analysis (re._parser) vs spec table A.4", "C08.6": "handler structure + reachability"},
     "assumptions": ["re.sub(P, '', s) != s iff s contains a match of P"],
 }
@@ -341,6 +341,11 @@ def check(ck):
                        "a rejected payload is answered with %s" % codes, q.loc(fm, h))
             ck.require(not any(call_name(c) in ("_unmarshaled_dispatch", "_marshaled_single_dispatch", "_dispatch") for c in calls),
                        "C08.6", "%s: handler dispatches nothing" % q.fn(fm), "no dispatch", "the parse-failure handler dispatches", q.loc(fm, h))
+    # ---- C08.7 shared clauses -----------------------------------------------------------------------------------------------
+    from rules import c02 as _c02, c07 as _c07, common as _cm8
+    _cm8.import_rules(ck, _c02, {"C02.6": "C08.7"})
+    _cm8.import_rules(ck, _c07.rule_c07_7, {"C07.7": "C08.7"})
+    ck.floor("C08.7", 8)
 
 
 def _straight(g, nid, limit=12):
@@ -354,3 +359,4 @@ def _straight(g, nid, limit=12):
         cur = nxt[0]
         out.append(cur)
     return out
+
